@@ -8,7 +8,19 @@ let always _ = true
 
 let show_pk = function M.InvalidCursor -> "Pc" | M.IndexRange -> "Pi" | M.NilDeref -> "Pn"
 
-let show_ints l = if l = [] then "." else String.concat "," (List.map string_of_int l)
+(* lists of more than 200 values are printed as a digest, by the same rule as the harness:
+   #<len>:<FNV-1a-64 over the values>:<first three>~<last three> *)
+let digest_above = 200
+let fnv l =
+  List.fold_left (fun h x -> Int64.mul (Int64.logxor h (Int64.of_int x)) 1099511628211L) (-3750763034362895579L) l
+let plain_ints l = String.concat "," (List.map string_of_int l)
+let show_ints l =
+  if l = [] then "." else
+  let n = List.length l in
+  if n > digest_above then begin
+    let a = Array.of_list l in
+    Printf.sprintf "#%d:%016Lx:%s~%s" n (fnv l) (plain_ints [a.(0); a.(1); a.(2)]) (plain_ints [a.(n-3); a.(n-2); a.(n-1)])
+  end else plain_ints l
 
 let show_out = function
   | M.RUnit -> "u"
@@ -111,20 +123,106 @@ let parse_sop (s : string) : int M.sop option =
   | ["slice"] -> Some M.SSlice
   | _ -> None
 
+(* Bulk ops: one op of the trace = many steps of the machine, printed as one result (see the
+   harness).  [bulk_of tok] gives, for an op, the list of machine ops to run one after the other
+   and the way to print their results; the machine's own [step] does all the work. *)
+let max_bulk = 1 lsl 20
+let count_opt s = match int_opt s with Some n when n >= 0 && n <= max_bulk -> Some n | _ -> None
+let seq_vals b n = List.init n (fun i -> b + 1 + i)
+
+(* what a bulk op prints: Unit ("u", or the panic that ended it), Values (q<ints><panic>),
+   Trues (n<count><panic>), Peeks (p<v:ok,...><panic>).  [classify] reads one step's printed result. *)
+type bulk_kind = BUnit | BValues | BTrues | BPeeks
+
+let is_stop r = r = "Pc" || r = "Pi" || r = "Pn" || r = "hang" || r = "BADADDR" || r = "nocur"
+
+let run_bulk (type st op) (step : st -> op -> st * string) (kind : bulk_kind) (st : st) (ops : op list) (probe : op option) : st * string =
+  (* a bulk op of zero calls through a cursor that was never handed out is still "nocur" *)
+  let missing = ops = [] && (match probe with Some p -> snd (step st p) = "nocur" | None -> false) in
+  if missing then (st, "nocur") else
+  let rec go st ops acc =
+    match ops with
+    | [] -> (st, List.rev acc, "")
+    | o :: rest ->
+      let (st', r) = step st o in
+      if is_stop r then (st', List.rev acc, r) else go st' rest (r :: acc) in
+  let (st', rs, stop) = go st ops [] in
+  if stop = "nocur" || stop = "hang" then (st', stop) else   (* no such cursor: the harness makes no call at all; a hang ends the history *)   (* no such cursor: the harness makes no call at all *)
+  let after c r = String.sub r c (String.length r - c) in
+  let res = match kind with
+    | BUnit -> if stop = "" then "u" else stop
+    | BValues ->
+      (* "v5" (Remove) or "p5:1" / "p0:0" (Pop: v when ok, -1-v when not) *)
+      let value r =
+        if r.[0] = 'v' then int_of_string (after 1 r)
+        else match String.split_on_char ':' (after 1 r) with
+          | [v; "1"] -> int_of_string v
+          | [v; _] -> -1 - int_of_string v
+          | _ -> failwith "bulk value" in
+      "q" ^ show_ints (List.map value rs) ^ stop
+    | BTrues -> "n" ^ string_of_int (List.length (List.filter (fun r -> r = "b1") rs)) ^ stop
+    | BPeeks -> "p" ^ String.concat "," (List.map (after 1) rs) ^ stop in
+  (st', res)
+
 (* One history on a machine (step, the observation made after every op), printed exactly as the
-   harness prints it.  [observe st] returns the tokens after the op's own result. *)
+   harness prints it.  [observe st] returns the tokens after the op's own result.  [parse] gives
+   a single machine op, [bulk] a bulk op (tried first). *)
 let history (type st op)
-    (parse : string -> op option) (step : st -> op -> st * string) (observe : st -> string list)
+    (parse : string -> op option) (bulk : string -> (bulk_kind * op list * op option) option)
+    (step : st -> op -> st * string) (observe : st -> string list)
     (init : st) (ops : string list) : string =
+  let quiet = ref false in      (* after "quiet" only "obs" prints the observation group *)
   let rec go st ops acc =
     match ops with
     | [] -> List.rev acc
+    | "quiet" :: rest -> quiet := true; go st rest ("u" :: acc)
+    | o :: rest when !quiet && o <> "obs" ->
+      let (st', res) =
+        match bulk o with
+        | Some (kind, mops, probe) -> run_bulk step kind st mops probe
+        | None -> (match parse o with None -> (st, "?") | Some op -> step st op) in
+      if res = "hang" then List.rev ("hang" :: acc) else go st' rest (res :: acc)
     | o :: rest ->
-      let (st', res) = match parse o with None -> (st, "?") | Some op -> step st op in
+      let (st', res) =
+        if o = "obs" then (st, "o") else
+        match bulk o with
+        | Some (kind, mops, probe) -> run_bulk step kind st mops probe
+        | None -> (match parse o with None -> (st, "?") | Some op -> step st op) in
       let toks = res :: observe st' in
       if List.mem "hang" toks then List.rev ("hang" :: acc)
       else go st' rest (String.concat "/" toks :: acc) in
   String.concat ";" (go init ops [])
+
+let zs_opt s =
+  let parts = String.split_on_char '+' s in
+  let zs = List.map z_opt parts in
+  if List.mem None zs then None else Some (List.map (function Some z -> z | None -> M.Z0) zs)
+
+let bulk_lop (s : string) : (bulk_kind * int M.op list * int M.op option) option =
+  match String.split_on_char ':' s with
+  | ["addn"; k; n; b] -> nat_opt k >>= fun k -> count_opt n >>= fun n -> int_opt b >>= fun b ->
+    Some (BUnit, [M.OAdd (k, seq_vals b n)], None)
+  | ["pushn"; k; n; b] -> nat_opt k >>= fun k -> count_opt n >>= fun n -> int_opt b >>= fun b ->
+    Some (BUnit, List.map (fun v -> M.OPush (k, v)) (seq_vals b n), Some (M.OAtEnd k))
+  | ["rmn"; k; n] -> nat_opt k >>= fun k -> count_opt n >>= fun n -> Some (BValues, List.init n (fun _ -> M.ORemove k), Some (M.OAtEnd k))
+  | ["nextn"; k; n] -> nat_opt k >>= fun k -> count_opt n >>= fun n -> Some (BTrues, List.init n (fun _ -> M.ONext k), Some (M.OAtEnd k))
+  | ["peeks"; offs] -> zs_opt offs >>= fun zs -> Some (BPeeks, List.map (fun z -> M.OPeek z) zs, None)
+  | _ -> None
+
+let bulk_qop (s : string) : (bulk_kind * int M.qop list * int M.qop option) option =
+  match String.split_on_char ':' s with
+  | ["addn"; n; b] -> count_opt n >>= fun n -> int_opt b >>= fun b -> Some (BUnit, List.map (fun v -> M.QAdd v) (seq_vals b n), None)
+  | ["popn"; n] -> count_opt n >>= fun n -> Some (BValues, List.init n (fun _ -> M.QPop), None)
+  | ["peeks"; offs] -> zs_opt offs >>= fun zs -> Some (BPeeks, List.map (fun z -> M.QPeek z) zs, None)
+  | _ -> None
+
+let bulk_sop (s : string) : (bulk_kind * int M.sop list * int M.sop option) option =
+  match String.split_on_char ':' s with
+  | ["pushn"; n; b] -> count_opt n >>= fun n -> int_opt b >>= fun b -> Some (BUnit, List.map (fun v -> M.SPush v) (seq_vals b n), None)
+  | ["addn"; n; b] -> count_opt n >>= fun n -> int_opt b >>= fun b -> Some (BUnit, List.map (fun v -> M.SAdd v) (seq_vals b n), None)
+  | ["popn"; n] -> count_opt n >>= fun n -> Some (BValues, List.init n (fun _ -> M.SPop), None)
+  | ["peeks"; offs] -> zs_opt offs >>= fun zs -> Some (BPeeks, List.map (fun z -> M.SPeek z) zs, None)
+  | _ -> None
 
 let rec iota n = if n <= 0 then [] else iota (n - 1) @ [n - 1]
 
@@ -134,21 +232,21 @@ let list_history (step : 's -> int M.op -> 's * int M.out) (ncur : 's -> int) (i
     let one o = show_out (snd (step s o)) in
     [one (M.OEach always); one M.OLen; one M.OIsEmpty]
     @ List.map (fun k -> one (M.OAtEnd (nat_of_int k)) ^ "." ^ one (M.OGet (nat_of_int k))) (iota (ncur s)) in
-  history parse_lop st obs init ops
+  history parse_lop bulk_lop st obs init ops
 
 let queue_history (step : 's -> int M.qop -> 's * int M.out) (init : 's) ops =
   let st s o = let (s', r) = step s o in (s', show_out r) in
   let obs s =
     let one o = show_out (snd (step s o)) in
     [one (M.QEach always); one M.QLen; one M.QIsEmpty; one M.QFront; one (M.QPeek (z_of_int 1))] in
-  history parse_qop st obs init ops
+  history parse_qop bulk_qop st obs init ops
 
 let stack_history (step : 's -> int M.sop -> 's * int M.sout) (init : 's) ops =
   let st s o = let (s', r) = step s o in (s', show_sout r) in
   let obs s =
     let one o = show_sout (snd (step s o)) in
     [one M.SSlice; one (M.SEach always); one M.SLen; one M.SIsEmpty; one M.STop; one (M.SPeek (z_of_int 1))] in
-  history parse_sop st obs init ops
+  history parse_sop bulk_sop st obs init ops
 
 let ops_of s = String.split_on_char ';' s
 
